@@ -161,3 +161,5 @@ func vpOneRecord(i, extra int) []byte {
 }
 
 func vpKeyOf(rec any) []byte { return vpKey(rec.(*Node), nil) }
+
+func vpBlankLinesOK() bool { return true }
